@@ -90,7 +90,10 @@ class Gen:
 
     def __init__(self, rng, d, mode, name, key, count_choice, fill):
         self.rng, self.d, self.mode, self.name, self.key = rng, d, mode, name, key
-        self.count_choice = count_choice       # int: repeats for counted/variable groups
+        # int: repeats for every counted/variable group; tuple: one count per size attribute, in order of
+        # declaration, cyclically (so that one group can be empty while a later one is not, and vice versa)
+        self.count_seq = tuple(count_choice) if isinstance(count_choice, (tuple, list)) else (count_choice,)
+        self.count_choice = self.count_seq[0]
         self.fill = fill                       # "zero" | "ones" | "random" | "edge"
         self.counts = {}                       # size attribute name -> chosen count
         self._collect(d)
@@ -99,7 +102,8 @@ class Gen:
         for k, v in d.items():
             if isinstance(v, tuple) and v[0] not in BITF:
                 if isinstance(v[0], str) and v[0] != "None":
-                    self.counts.setdefault(v[0], self.count_choice)
+                    if v[0] not in self.counts:
+                        self.counts[v[0]] = self.count_seq[len(self.counts) % len(self.count_seq)]
                 self._collect(v[1])
 
     def rawint(self, nbytes, signed):
